@@ -511,7 +511,18 @@ class StmtMixin(CallMixin):
                 if isinstance(x, ast.Name):
                     names.add(x.id)
         names |= self.mutated_local_containers(body, st)
+        new_names = self._loop_new_names = set()
+        for n in sorted(names):
+            if n not in st.env and self.local_type_hint(n) is not None:
+                # first bound inside the loop and typed by the contract: after at least one iteration it holds some
+                # value of that type (the zero-iteration exit, where it is unbound, is a separate path in cut_loop)
+                nv = self.fresh(self.local_type_hint(n), n)
+                self.assume_valid(st, nv)
+                st.env[n] = nv
+                new_names.add(n)
         for n in names:
+            if n in new_names:
+                continue
             if n in st.env and isinstance(st.env[n], V) and st.env[n].ty != PYOBJ and st.env[n].ty != NONE:
                 old = st.env[n]
                 if old.lv is not None and old.lv[0] != "local":
@@ -695,6 +706,18 @@ class StmtMixin(CallMixin):
                 extra.update(self.dom_ghost(dv, "head", sh))
             for lbl, g in self.inv_bool(spec, sh, extra, assume=True):
                 sh.assume(g)
+            if getattr(self, "_loop_new_names", None):
+                # the zero-iteration exit keeps those names unbound (a later use raises UnboundLocalError)
+                sz = s0.copy()
+                if kind == "while":
+                    for s3, t in self.ev_truth(s.test, sz):
+                        s3.assume(z3.Not(t))
+                        if self.feasible(s3):
+                            outs.append(Out("fall", s3))
+                else:
+                    sz.assume(self.dom_empty(dv))
+                    if self.feasible(sz):
+                        outs.append(Out("fall", sz))
             # exit path
             sx = sh.copy()
             if kind == "while":
@@ -834,6 +857,16 @@ class StmtMixin(CallMixin):
             return done == dv["set"].t
         raise Unsupported("domain")
 
+    def dom_empty(self, dv):
+        k = dv["kind"]
+        if k == "range":
+            return dv["lo"].t >= dv["hi"].t
+        if k == "list":
+            return T.list_len(dv["list"]) == T.intval(0).t
+        if k == "set":
+            return dv["set"].t == z3.K(dv["ety"].sort(), False)
+        raise Unsupported("domain")
+
     def dom_exit(self, dv, st):
         """A for-loop that runs to exhaustion has performed exactly the domain's number of
         iterations (semantics of range/list iteration; `break` exits elsewhere)."""
@@ -927,7 +960,9 @@ class StmtMixin(CallMixin):
                 continue
             newm = z3.FreshConst(z3.ArraySort(z3.IntSort(), ty.sort()), "y_%s_%s" % (cls, _safe(fld)))
             if (cls, fld) not in self.heap0 and (cls, fld) not in st.heap \
-                    and not any(loc.rpartition(".")[2] in ("*", fld) for loc in keep):
+                    and not any(loc.rpartition(".")[2] in ("*", fld) and
+                                (loc.rpartition(".")[0] == cls or loc.rpartition(".")[0] not in C.CLASSES)
+                                for loc in keep):
                 # never read or written so far and not owned: the new map needs no link to the entry map (which is
                 # created, with its well-formedness axiom, only if an old() expression asks for it later)
                 st.heap[(cls, fld)] = newm
